@@ -180,6 +180,9 @@ func cmdCheck(w *World, args []string, tier string, verbose bool) int {
 			qs = append(qs, vq{r.name, o.fx.W.preludeFor(bodyAll) + bodyAll, "the assumptions collected while executing the function are contradictory"})
 		}
 		vacuity = len(qs)
+		if os.Getenv("GOVC_TIMING") != "" {
+			fmt.Fprintf(os.Stderr, "timing phases: generation %.1fs, %d vacuity queries\n", time.Since(start).Seconds(), len(qs))
+		}
 		verdicts := make([]Verdict, len(qs))
 		var wg sync.WaitGroup
 		sem := make(chan struct{}, 8)
@@ -200,7 +203,25 @@ func cmdCheck(w *World, args []string, tier string, verbose bool) int {
 		}
 	}
 
+	tDis := time.Now()
 	dischargeAll(allObls, timeout, 16)
+	if os.Getenv("GOVC_TIMING") != "" {
+		fmt.Fprintf(os.Stderr, "timing phases: until discharge %.1fs, discharge %.1fs\n", tDis.Sub(start).Seconds(), time.Since(tDis).Seconds())
+		byFn := map[string]float64{}
+		for _, o := range allObls {
+			if o.Answer != nil {
+				byFn[o.Func] += o.Answer.Secs
+			}
+		}
+		fns := sortedKeys(byFn)
+		sort.Slice(fns, func(i, j int) bool { return byFn[fns[i]] > byFn[fns[j]] })
+		for i, f := range fns {
+			if i >= 15 {
+				break
+			}
+			fmt.Fprintf(os.Stderr, "timing %8.1fs %s\n", byFn[f], f)
+		}
+	}
 
 	// classify
 	var violations []*Obligation
